@@ -292,6 +292,11 @@ struct ruge_stuben {
 
                 if (math::norm(a_min) < eps) {
                     cf[i] = 'F';
+
+                    // No negative couplings: the row has no strong connections.
+                    for(Ptr j = A.ptr[i], e = A.ptr[i + 1]; j < e; ++j)
+                        S.val[j] = false;
+
                     continue;
                 }
 
